@@ -166,11 +166,11 @@ def rnd_name(rng, hostile):
     return rng.choice(NAMES_OK)
 
 
-def rnd_tree(rng, hostile=0.15, dup=0.1, depth=3, fan=5, damage=0.0, links=0.0):
+def rnd_tree(rng, hostile=0.15, dup=0.1, depth=3, fan=5, damage=0.0, links=0.0, minfan=0):
     """damage: probability per node of a data block / xattr record the reader refuses; links: of a hard link"""
     def kids(d):
         out = []
-        for _ in range(rng.randint(0, fan)):
+        for _ in range(rng.randint(minfan if d == depth else 0, fan if d == depth or not minfan else 4)):
             if out and rng.random() < dup:
                 nm = rng.choice(out).name
                 if rng.random() < 0.3:
@@ -247,6 +247,26 @@ def corpus_builtin():
                                                               N(b"fifo", "p", perm=0o640), N(b"sock", "s", perm=0o600, xattrs=[(b"user.c06", b"v")])])))
     out.append(("symlink chain inside R then dup", N(b"", "d", children=[N(b"p", "l", payload=b"q"), N(b"q", "l", payload=b"../decoy_dir"), N(b"p", "d", children=[N(b"x", "f")])])))
     out.append(("nested dup below symlink-named dir", N(b"", "d", children=[N(b"d", "d", children=[N(b"a", "l", payload=b"../../decoy_dir"), N(b"a", "d", children=[N(b"x", "f", payload=b"pwned")])])])))
+    # wide directories in adversarial listing order: a slip in tree_sort's merge (an element dropped or left in place at a run
+    # boundary, the adjacent-duplicate test missing a pair that only meets after the last merge) needs more than a handful of siblings
+    wide = [N(b"n%02d" % i, "dfl"[i % 3], payload=(b"../decoy_dir" if i % 3 == 2 else b"p%d" % i if i % 3 == 1 else b""),
+              children=([N(b"c", "f", payload=b"c")] if i % 3 == 0 else [])) for i in range(12)]
+    out.append(("12 siblings in reverse order", N(b"", "d", children=wide[::-1])))
+    out.append(("13 siblings interleaved", N(b"", "d", children=wide[::2] + [N(b"m", "f", payload=b"m")] + wide[1::2][::-1])))
+    far = [N(b"a", "l", payload=b"../decoy_dir")] + [N(bytes([98 + i]), "df"[i % 2], payload=b"x" if i % 2 else b"") for i in range(8)] + \
+          [N(b"a", "d", children=[N(b"pwn", "f", payload=b"pwned")])]
+    out.append(("duplicate first and last of 10 siblings", N(b"", "d", children=far)))
+    out.append(("duplicate across the middle of 9 siblings", N(b"", "d", children=[N(b"h", "f"), N(b"g", "d"), N(b"f", "f"), N(b"e", "d"),
+                N(b"a", "l", payload=b"../decoy_file"), N(b"a", "f", payload=b"pwned", perm=0o777), N(b"d", "f"), N(b"c", "d"), N(b"b", "f")])))
+    out.append(("duplicate dir+symlink, 11 siblings, dup at positions 3 and 8", N(b"", "d", children=[N(b"k", "f"), N(b"j", "f"), N(b"z", "f"),
+                N(b"q", "d", children=[N(b"pwn", "f", payload=b"pwned")]), N(b"i", "f"), N(b"y", "d"), N(b"x", "f"), N(b"w", "f"),
+                N(b"q", "l", payload=b"../decoy_dir"), N(b"b", "f"), N(b"a", "f")])))
+    pre = [b"a", b"aa", b"aaa", b"a.", b"a-", b"A", b"ab", b"a\0z", b"b", b"aa\0", b"a b", b"ab\0c", b"\xff", b"a\xff", b"B", b"0"]
+    out.append(("16 siblings with shared prefixes and NUL-cut duplicates", N(b"", "d", children=[
+        N(nm, "dlf"[i % 3], payload=(b"../decoy_dir" if i % 3 == 1 else b"f%d" % i if i % 3 == 2 else b""),
+          children=([N(b"in", "f", payload=b"in")] if i % 3 == 0 else [])) for i, nm in enumerate(pre)])))
+    out.append(("40 siblings, descending, two levels", N(b"", "d", children=[N(b"s%02d" % i, "d", children=[N(b"t%02d" % j, "f", payload=b"%d" % j) for j in range(9, -1, -1)])
+                                                                          for i in range(39, 29, -1)] + [N(b"r%02d" % i, "f") for i in range(29, -1, -1)])))
     out.append(("xattrs everywhere", N(b"", "d", children=[N(b"f", "f", payload=b"1", xattrs=[(b"user.c06", b"1"), (b"trusted.c06", b"2"), (b"security.c06", b"3")]),
                                                          N(b"d", "d", xattrs=[(b"user.c06", b"d")], children=[N(b"l", "l", payload=b"../../decoy_file", xattrs=[(b"user.c06", b"l")])])])))
     return out
@@ -671,12 +691,13 @@ def run_case(ctx, rd, idx, case, timeout=CASE_TIMEOUT):
                 except OSError:
                     pass
             perm["chdir"] = e
-        fl = [] if case["flags"] == "-" else ["-" + c for c in case["flags"]]
+        noisy = "v" in case["flags"]                  # `v`: run without -q ("creating …" / "unpacking …" on stdout); `Z`: --no-sparse
+        fl = [] if case["flags"] == "-" else ["-" + c for c in case["flags"] if c != "v"]
         cmd = []
         if runner:
             cmd += ["setpriv", "--reuid=%d" % runner, "--regid=%d" % runner, "--clear-groups"]
         cmd += ["strace", "-f", "-xx", "-s", "70000", "-o", str(base / "st.log"), "-e", "trace=" + TRACE,
-                str(rd), "-q", "-u", os.fsdecode(case["upath"])]
+                str(rd)] + ([] if noisy else ["-q"]) + ["-u", os.fsdecode(case["upath"])]
         if rstr is not None:
             cmd += ["-p", os.fsdecode(rstr)]
         cmd += fl + [str(img)]
@@ -688,9 +709,9 @@ def run_case(ctx, rd, idx, case, timeout=CASE_TIMEOUT):
             env["C06_FAULT_LOG"] = str(flog)
         try:
             r = subprocess.run(cmd, cwd=os.fsdecode(cwd), env=env, stdout=subprocess.PIPE, stderr=subprocess.PIPE, timeout=timeout)
-            rc, err = r.returncode, r.stderr
+            rc, err, sout = r.returncode, r.stderr, r.stdout
         except subprocess.TimeoutExpired:
-            rc, err = "timeout", b""
+            rc, err, sout = "timeout", b"", b""
         os.chmod(jail / "ro", 0o755)
         os.chmod(jail / "noexec", 0o755)
         after = snapshot(outer, root)
@@ -710,7 +731,7 @@ def run_case(ctx, rd, idx, case, timeout=CASE_TIMEOUT):
                     fcounts[w[1]] = int(w[2])
         rec = {"idx": idx, "label": case["label"], "flags": case["flags"], "upath": case["upath"].hex(), "rstate": case["rstate"],
                "rstr": None if case["rstr"] is None else case["rstr"].hex(), "rstr_real": None if rstr is None else rstr.hex(),
-               "start": case["start"], "priv": case["priv"], "fault": case["fault"], "fired": fired, "fault_counts": fcounts,
+               "start": case["start"], "priv": case["priv"], "fault": case["fault"], "fired": fired, "fault_counts": fcounts, "stdout": sout.decode("latin-1") if noisy else None,
                "tokens": tree.tokens(), "template": template, "xattr_table": has_xattr_table(tree), "has_links": has_links(tree),
                "jail": os.fsdecode(absb), "cwd": os.fsdecode(cwd), "root": None if root is None else os.fsdecode(root),
                "perm": perm, "fsents": fsents, "new_dirs": [os.fsdecode(p) for p in allowed_new if p not in before and p in after],
@@ -726,7 +747,7 @@ def run_case(ctx, rd, idx, case, timeout=CASE_TIMEOUT):
 
 # ---------------------------------------------------------------------------------------------- model side
 def model_flags(rec):
-    f = "" if rec["flags"] == "-" else rec["flags"]
+    f = "" if rec["flags"] == "-" else rec["flags"].replace("Z", "").replace("v", "")      # -Z, -q do not change which calls are made
     if not rec["xattr_table"]:
         f += "n"                                   # SQFS_FLAG_NO_XATTRS: `xattr == NULL` in main
     return f or "-"
@@ -840,6 +861,24 @@ def split_calls(rec):
             continue
         (post if chd is not None else pre).append((tok, res))
     return pre, chd, post
+
+
+def compare_stdout(rec):
+    """without -q: one "creating <path>" line before every call of the create walk (the failing one included) and one
+    "unpacking <path>" line after every successful open of the fill walk, in order, nothing else — read off the traced calls"""
+    if rec["stdout"] is None or rec["fault"] is not None or any("~" in t or t.startswith(("truncated", "other", "unparsed")) for t, _ in rec["calls"]):
+        return []                            # (an injected failing call never reaches the kernel: not in the trace; "~": strace cut the path)
+    want = b""
+    for tok, res in split_calls(rec)[2]:
+        f = tok.split(":")
+        if f[0] in ("mkdir", "mknod", "openx"):
+            want += b"creating " + unhx(f[1]) + b"\n"
+        elif f[0] == "symlink":
+            want += b"creating " + unhx(f[2]) + b"\n"
+        elif f[0] == "opent" and res == "0":
+            want += b"unpacking " + unhx(f[1]) + b"\n"
+    got = rec["stdout"].encode("latin-1")
+    return [] if got == want else ["stdout of the run without -q is not the progress lines of the traced calls: got %r want %r" % (got[-300:], want[-300:])]
 
 
 def compare(rec, m):
@@ -1239,6 +1278,8 @@ def build_cases(ctx, can_nobody):
     for label, t in corpus_builtin():
         for fl in ALLFLAGS:
             cases.append(mk_case("builtin:" + label, t, fl, b"/", "empty" if rng.random() < 0.5 else "absent"))
+        cases.append(mk_case("builtin:" + label, t, "COXTZv", b"/", "absent"))           # --no-sparse, without -q
+        cases.append(mk_case("builtin:" + label, t, rng.choice(ALLFLAGS).replace("-", "") + "v", b"/", "empty"))
     n["builtin"] = len(cases) - n["corpus"]
     small = small_trees()
     # every shape of the unpack root with two option sets and two trees each
@@ -1275,7 +1316,7 @@ def build_cases(ctx, can_nobody):
             cases.append(mk_case("nobody:builtin:" + label, t, rng.choice(ALLFLAGS), b"/", rng.choice(["absent", "empty"]), priv="nobody"))
     n["nobody_fixed"] = len(cases) - k0
     nrand = 1200 if ctx.quick() else 30000
-    k0 = len(cases)
+    k0, nwide = len(cases), 0
     for i in range(nrand):
         r = rng.random()
         dmg = 0.15 if rng.random() < 0.15 else 0.0
@@ -1288,7 +1329,14 @@ def build_cases(ctx, can_nobody):
             t = rnd_tree(rng, hostile=0.1, dup=0.12, damage=dmg)
         else:
             t = rnd_tree(rng, hostile=0.3, dup=0.05, depth=4, fan=4, damage=dmg)
+        if rng.random() < 0.2:                                      # wide directories (8..14 siblings), listed in random order
+            t = rnd_tree(rng, hostile=0.08, dup=rng.choice([0.0, 0.0, 0.08]), depth=2, fan=14, damage=dmg, minfan=8)
+            nwide += 1
         fl = ALLFLAGS[i % 16] if rng.random() < 0.7 else rng.choice(ALLFLAGS)
+        if rng.random() < 0.15:
+            fl = (fl if fl != "-" else "") + "Z"
+        if rng.random() < 0.15:
+            fl = (fl if fl != "-" else "") + "v"
         if rng.random() < 0.25:                                     # -D -S -F -L -E prune the tree before unpacking
             fl = (fl if fl != "-" else "") + "".join(c for c in "DSFLE" if rng.random() < 0.4) or "-"
         up = b"/"
@@ -1310,6 +1358,7 @@ def build_cases(ctx, can_nobody):
                 rstate, rstr, start = rng.choice(NOBODY_SHAPES)
         cases.append(mk_case("random", t, fl, up, rstate, rstr, start, priv))
     n["random"] = len(cases) - k0
+    n["random_with_8_to_14_siblings"] = nwide
     return cases, n
 
 
@@ -1415,6 +1464,12 @@ def judge_wfaults(ctx, wcases, wrecs, stats):
     """specification only: nothing outside R changes; no abnormal end; exit status 0 only for a failure the code is meant to survive,
     and then everything must have been unpacked completely; the traced calls are a prefix of the fault-free run's"""
     h = stats["hist"].setdefault("wfaults", {})
+    nrep = [0]
+
+    def report(*a, **kw):
+        nrep[0] += 1
+        if nrep[0] <= 5:
+            report(*a, **kw)
     for c, rec in zip(wcases, wrecs):
         cls, k, en = c["fault"]
         key = "%s|%s|%s:%d:%s" % (vlib.sha(" ".join(rec["template"]))[:16], rec["flags"], cls, k, en)
@@ -1428,23 +1483,23 @@ def judge_wfaults(ctx, wcases, wrecs, stats):
         stats["nontrivial"].add("wfault|" + key)
         if rec["changed"]:
             stats["nviol"] += 1
-            ctx.violation("escape:wfault:" + key, "rdsquashfs changed objects outside the unpack root after an injected %s failure: %s" % (cls, json.dumps(rec["changed"][:3])[:500]),
+            report("escape:wfault:" + key, "rdsquashfs changed objects outside the unpack root after an injected %s failure: %s" % (cls, json.dumps(rec["changed"][:3])[:500]),
                           replay_dict(rec, "jail snapshot differs outside R"))
         elif isinstance(rec["rc"], str) or rec["rc"] not in (0, 1):
             stats["nviol"] += 1
-            ctx.violation("crash:wfault:" + key, "rdsquashfs ended abnormally (rc=%s) after an injected %s failure: %s" % (rec["rc"], cls, rec["stderr"][-400:]),
+            report("crash:wfault:" + key, "rdsquashfs ended abnormally (rc=%s) after an injected %s failure: %s" % (rec["rc"], cls, rec["stderr"][-400:]),
                           replay_dict(rec, "abnormal end"))
         elif rec["rc"] == 0 and not tol:
             stats["nviol"] += 1
-            ctx.violation("fill-error-ignored:" + key, "the %d-th %s() of the run was made to fail with %s and rdsquashfs still exited 0" % (k, cls, en),
+            report("fill-error-ignored:" + key, "the %d-th %s() of the run was made to fail with %s and rdsquashfs still exited 0" % (k, cls, en),
                           replay_dict(rec, "injected %s failure ignored" % cls))
         elif rec["rc"] == 0 and spec_complete(rec):
             stats["nviol"] += 1
-            ctx.violation("incomplete:wfault:" + key, "exit status 0 after a (survivable) injected %s/%s but the image was not completely unpacked: %s" % (
+            report("incomplete:wfault:" + key, "exit status 0 after a (survivable) injected %s/%s but the image was not completely unpacked: %s" % (
                 cls, en, "; ".join(spec_complete(rec))[:600]), replay_dict(rec, spec_complete(rec)))
         elif rec["rc"] == 0 and rec["calls"] != c["base_calls"] or rec["rc"] == 1 and rec["calls"] != c["base_calls"][:len(rec["calls"])]:
             stats["ndis"] += 1
-            ctx.violation("corr:wfault:" + key, "after an injected %s/%s the traced calls are not %s the fault-free run's" % (cls, en, "equal to" if rec["rc"] == 0 else "a prefix of"),
+            report("corr:wfault:" + key, "after an injected %s/%s the traced calls are not %s the fault-free run's" % (cls, en, "equal to" if rec["rc"] == 0 else "a prefix of"),
                           dict(replay_dict(rec, "calls differ"), fault_free_calls=c["base_calls"][:60]), found_input=False)
         else:
             stats["wfaults_ok"] += 1
@@ -1606,8 +1661,10 @@ def judge(ctx, recs, models, plans, stats):
                               replay_dict(rec, inc))
             continue
         # 2. correspondence
-        bad = compare(rec, m) + compare_skips(rec, m, pl) + compare_state(rec, m)
+        bad = compare(rec, m) + compare_skips(rec, m, pl) + compare_state(rec, m) + compare_stdout(rec)
         stats["compared"] += 1
+        stats["noisy_compared"] += rec["stdout"] is not None
+        stats["nosparse_runs"] += "Z" in rec["flags"]
         if bad:
             stats["ndis"] += 1
             if stats["ndis"] <= 5:
@@ -1671,7 +1728,7 @@ def run(ctx):
     models, plans = model_pass(ctx, cases, recs)
     stats = {"hist": {"rc": {}, "model_status": {}, "impl_calls": 0, "skips_reported": 0, "rstate": {}, "priv": {}, "root": {}, "faults": {},
                       "nobody_refusals": {}},
-             "nontrivial": set(), "ndis": 0, "nviol": 0, "link_escapes": 0, "wfaults_fired": 0, "wfaults_ok": 0, "nmon": 0, "compared": 0, "complete_checked": 0, "monitored": 0, "monitored_calls": 0, "monitor_skipped": {}}
+             "nontrivial": set(), "ndis": 0, "nviol": 0, "link_escapes": 0, "wfaults_fired": 0, "wfaults_ok": 0, "noisy_compared": 0, "nosparse_runs": 0, "nmon": 0, "compared": 0, "complete_checked": 0, "monitored": 0, "monitored_calls": 0, "monitor_skipped": {}}
     judge(ctx, recs, models, plans, stats)
     # fault injection: derived from the fault-free runs
     fcases = fault_cases(ctx, cases, recs, models)
@@ -1717,7 +1774,9 @@ def run(ctx):
         "distinct_nontrivial": len(stats["nontrivial"]),
         "rule": "forged images (%s; all 16 subsets of -C -O -X -T, 25%% also with a subset of -D -S -F -L -E; 15%% with an unpack sub-path; 15%% of the random "
                 "trees with damaged data blocks / xattr records, 8%% with hard links) unpacked by the ASan+UBSan rdsquashfs of the working tree under strace in a jail "
-                "with decoys and an empty sentinel start directory; R absent / empty / a file / a dangling link / a link to a directory / to a file / a loop / populated, "
+                "with decoys and an empty sentinel start directory; R absent / empty / a file / a dangling link / a link to a directory / to a file / a loop / populated / "
+                "populated with symbolic links below it (14 LINK_STATES: directory, file, dangling, absolute, inner links at depth 1..3, links at unnamed paths); "
+                "15%% of the random runs with -Z, 15%% without -q (stdout compared), 20%% of the random trees with 8..14 siblings in the top directory; "
                 "-p spelled %d ways or not given; unprivileged runs: %s; then %d runs with one injected system-call failure each (classes %s x errnos %s); "
                 "non-trivial = distinct (tree, flags, path, R state, -p, user, fault) where an entry was skipped, the tool failed, a system call failed or was made to fail" % (
                     ", ".join("%d %s" % (v, k) for k, v in ncase.items()), len({s[1] for s in ROOT_SHAPES}), "yes" if can_nobody else "not possible here",
@@ -1733,10 +1792,18 @@ def run(ctx):
                               "survivable_by_design": sorted("%s/%s" % x for x in WTOLERATED if x[0] != "close") + ["close/*"]},
         "successful_runs_checked_for_completeness": stats["complete_checked"],
         "unprivileged_runs_possible": can_nobody,
+        # explicit flag: a capability the check needs and this run did not have — the evidence of such a run is weaker and says so
+        "capabilities_missing": [] if can_nobody else ["unprivileged-runs: setpriv --reuid=65534 under strace is not possible here (not root, or the sandbox "
+                                                       "refuses it): the nobody stream (EPERM/EACCES reactions of the real kernel) was NOT exercised"],
+        "runs_without_q_stdout_compared": stats["noisy_compared"], "runs_with_no_sparse_Z": stats["nosparse_runs"],
         "create_node_variant": "repaired (model unpackMainR / op mainr)" if repaired else "current (model unpackMain / op main)",
         "runs_into_R_with_symlinks_below": sum(v for k, v in stats["hist"]["rstate"].items() if k in LINK_STATES),
         "escapes_through_a_link_planted_below_R": stats["link_escapes"],
     })
+    if not can_nobody:
+        ctx.log("CAPABILITY MISSING: unprivileged runs were not possible; evidence flag capabilities_missing is set")
+    if not stats["noisy_compared"] or not stats["nosparse_runs"]:
+        raise Infra("no run without -q (%d) or with -Z (%d) was compared" % (stats["noisy_compared"], stats["nosparse_runs"]))
     return ctx.finish(LEVEL, trusted_extra=[
         "abstract POSIX file system of Sqfs/Model/Unpack.lean (path resolution, symlink following, O_EXCL / O_CREAT|O_TRUNC / AT_SYMLINK_NOFOLLOW rules): "
         "hypothesis of the theorems, validated against the kernel by random system-call scripts on every run (posix_model_probe)",
@@ -1744,9 +1811,12 @@ def run(ctx):
         "harness/h_c06_fault.c (link-time wrappers that make one call fail)",
         "modelled: rdsquashfs.c (tree_sort, OP_UNPACK incl. mkdir_p/chdir), restore_fstree.c, fill_files.c, mkdir_p.c, dir_tree.c (sqfs_tree_node_get_path), read_tree.c "
         "(names as C strings, children only below directory inodes, --unpack-path lookup); canonicalize_name / is_filename_sane via the C18 model"],
-        assumptions=["the directory the tool stands in after chdir(R) has no symbolic link strictly below it before the run (in particular: is fresh); "
-                     "an R that already holds symbolic links is outside the property (Witness.C06.prepopulated_symlink_escapes) and not generated",
-                     "no other process modifies R during the run"])
+        assumptions=(["CURRENT create_node: the confinement theorems of the current code need `NoLinkBelow` (no symbolic link strictly below the directory the tool "
+                      "stands in after chdir(R)); the property states no such hypothesis: an R that already holds a symbolic link at the path of a directory of the "
+                      "image is walked through (Witness.C06.prepopulated_symlink_escapes; generated on every run: LINK_STATES; recorded as known finding "
+                      "escape:symlink-below-R).  REPAIRED create_node (fixes/C06-mkdir-eexist-lstat.patch): C06.confinement_any_R, no hypothesis on R"]
+                     if not repaired else ["repaired create_node: confinement_any_R applies, no hypothesis on what R holds"]) +
+                    ["no other process modifies R during the run"] + ([] if can_nobody else ["UNPRIVILEGED RUNS NOT EXERCISED in this run (capabilities_missing)"]))
 
 
 def replay(ctx, path):
